@@ -493,6 +493,20 @@ impl FromStr for FileHash {
     }
 }
 
+impl FileHash {
+    /// Combines this hash with the hash of another part of the same file.
+    /// The result identifies the pair of hashes: two pairs give the same result only if they
+    /// consist of the same hashes, in the same order (unlike with xor, where equal hashes
+    /// cancel each other and the order doesn't matter).
+    pub fn combine(&self, other: &FileHash) -> FileHash {
+        FileHash(
+            [self.0.as_ref(), other.0.as_ref()]
+                .concat()
+                .into_boxed_slice(),
+        )
+    }
+}
+
 impl BitXor for FileHash {
     type Output = Self;
 
